@@ -578,6 +578,7 @@ type agg struct {
 	sigs      map[uint64]struct{}
 	stats     map[string]int
 	samples   []string
+	sampled   map[int]bool
 	digests   map[int]map[int]uint64 // idx -> level -> digest
 	indep     map[int]bool
 	inhash    map[int]map[int]uint64
@@ -964,8 +965,12 @@ func (a *agg) add(idx, level int, o *props.Outcome) {
 	for k, v := range o.Stats {
 		a.stats[k] += v
 	}
-	if o.Sample != "" && len(a.samples) < 12 && level == 0 || (len(a.samples) < 4 && o.Sample != "") {
-		a.samples = append(a.samples, fmt.Sprintf("run %d level %d: %s", idx, level, o.Sample))
+	if o.Sample != "" && len(a.samples) < 8 && !a.sampled[idx] {
+		if a.sampled == nil {
+			a.sampled = map[int]bool{}
+		}
+		a.sampled[idx] = true
+		a.samples = append(a.samples, fmt.Sprintf("run %d (first seen at level %d): %s", idx, level, o.Sample))
 	}
 	if a.digests[idx] == nil {
 		a.digests[idx] = map[int]uint64{}
@@ -999,8 +1004,18 @@ func writeEvidence(vd, id, tier string, seed uint64, meta props.Meta, a *agg, le
 	for _, s := range a.samples {
 		samples = append(samples, s)
 	}
-	if len(samples) == 0 {
-		samples = append(samples, "no sample recorded")
+	// one run written out completely: the replayable trace of run index 0
+	if p := props.Registry[id]; p != nil {
+		samples = append(samples, map[string]interface{}{"full_trace_of_run_0": genTrace(p, tier, seed, 0)})
+	}
+	if known == nil {
+		known = []string{}
+	}
+	if notes == nil {
+		notes = []string{}
+	}
+	if reported == nil {
+		reported = []map[string]interface{}{}
 	}
 	hours := wall / 3600
 	if hours <= 0 {
